@@ -55,3 +55,57 @@ Theorem C20_sanitize_injective : forall a b, bytes_ok a = true -> bytes_ok b = t
   sanitize a = sanitize b -> a = b.
 Proof. exact sanitize_injective. Qed.
 Print Assumptions C20_sanitize_injective.
+
+(* ---- the whole output, for every report tree with arbitrary octets in every string ----
+   (1) every rune of the output decodes as valid UTF-8 and is the LF that ends a line, printable
+       ASCII (0x20..0x7E) or a code point >= U+00A0: no C0, DEL or C1, no malformed octets;
+   (2) the output split at LF is exactly the list of lines fixed by the tree, and (3) none of
+       them contains an LF (every LF ends a line);
+   (4) their number is the number of descriptions and attributes of the tree;
+   (5) each line starts with twice its depth in spaces (a description at the depth of its node,
+       an attribute one level below). *)
+Theorem C20_whole_output : forall i, info_ok i ->
+  all_good_runes (length (print_info i 0)) (print_info i 0) = true /\
+  split_lines (print_info i 0) = lines_of sanitize i 0 /\
+  Forall (fun l => ~ In 10 l) (lines_of sanitize i 0) /\
+  length (lines_of sanitize i 0) = size_of i /\
+  lines_indented (map (fun d => (2 * d)%nat) (depths_of i 0)) (lines_of sanitize i 0) = true.
+Proof. exact report_whole_output. Qed.
+Print Assumptions C20_whole_output.
+
+(* non-trivial instance of the hypothesis: a tree whose strings carry LF, ESC, DEL, C1 (encoded
+   and stray), JSON text and a printf directive *)
+Example C20_whole_output_example :
+  info_ok (Info [97; 10; 32; 32; 70; 27; 91] [([91; 10; 34; 127; 34; 93], [194; 155; 155; 37; 115])]
+                [Info [192; 138] [] []]).
+Proof. repeat (split || constructor). Qed.
+
+(* what the spec checker evaluates on the implementation's output follows from (1) ... *)
+Theorem C20_good_runes_imply_checker_clauses : forall fuel s, all_good_runes fuel s = true ->
+  has_bad_rune fuel s = false /\ stray_c1 fuel s = false.
+Proof. exact all_good_no_bad. Qed.
+Print Assumptions C20_good_runes_imply_checker_clauses.
+
+(* ... and its linear-time line splitter is split_lines *)
+Theorem C20_checker_split : forall s, split_lines_fast s = split_lines s.
+Proof. exact split_lines_fast_eq. Qed.
+Print Assumptions C20_checker_split.
+
+(* several files in one run (recursive scan, several arguments), paths printable ASCII:
+   the output is the reports one after the other - its lines are the lines of each report,
+   the first one behind "path: ", their number is the sum of the sizes of the trees, and
+   every rune is as in (1) *)
+Theorem C20_scan_lines : forall items, scan_ok items ->
+  split_lines (report_all items) = flat_map (fun pi => file_report_lines (fst pi) (snd pi)) items.
+Proof. exact scan_lines. Qed.
+Print Assumptions C20_scan_lines.
+
+Theorem C20_scan_line_count : forall items, scan_ok items ->
+  length (split_lines (report_all items)) = list_sum (map (fun pi => size_of (snd pi)) items).
+Proof. exact scan_line_count. Qed.
+Print Assumptions C20_scan_line_count.
+
+Theorem C20_scan_no_controls : forall items, scan_ok items ->
+  all_good_runes (length (report_all items)) (report_all items) = true.
+Proof. exact scan_all_good_runes. Qed.
+Print Assumptions C20_scan_no_controls.
